@@ -727,6 +727,9 @@ def build_pipeline_inspection(
         hook = getattr(processor.__class__, "get_context_requirements", None)
         if callable(hook):
             for key in hook():
+                if key in node.processor_config:
+                    # Supplied by node configuration: not a context requirement.
+                    continue
                 if key not in context_params:
                     context_params[key] = key_origin.get(key)
                 required_params.add(key)
